@@ -101,7 +101,8 @@ def independent_axes(w):
         if fd.get("out_shape"):
             internal.update(c05_internal_axes(fd))
     root_axes = {a for n, d in w["inputs"].items() if d["kind"] in ("list", "ndarray") and n in arrays for a in arrays[n] if a}
-    return sorted(root_axes - reduced - internal), sorted(reduced & root_axes)
+    nonempty = {a for a in root_axes if w["indices"].get(a, 0) > 0}  # an empty axis cannot be partitioned or fixed
+    return sorted((root_axes & nonempty) - reduced - internal), sorted(reduced & root_axes & nonempty)
 
 
 def c05_internal_axes(fd):
@@ -405,7 +406,7 @@ def _run_parts(case, w, ref, folder, process, V, probes):
         # call log of this part: no element twice over the whole history, nothing outside the selection
         for c in sim.calls:
             seen_calls[c.key()] += 1
-            if seen_calls[c.key()] > 1:
+            if seen_calls[c.key()] > max(1, ref.C0.get(c.key(), 0)):
                 V("parts", "element-computed-twice", {"part": part, "call": repr(c)})
                 return
             if c.key() not in ref.C0:
@@ -427,7 +428,7 @@ def _run_parts(case, w, ref, folder, process, V, probes):
         return
     for c in sim.calls:
         seen_calls[c.key()] += 1
-        if seen_calls[c.key()] > 1:
+        if seen_calls[c.key()] > max(1, ref.C0.get(c.key(), 0)):
             V("parts", "element-computed-twice", {"part": "final", "call": repr(c)})
             return
     if R != ref.R0:
@@ -500,7 +501,7 @@ def _run_learners(case, w, ref, folder, process, V, probes, tape):
         return
     for c in sim.calls:
         seen[c.key()] += 1
-        if seen[c.key()] > 1:
+        if seen[c.key()] > max(1, ref.C0.get(c.key(), 0)):
             V("learners", "element-computed-twice", {"call": repr(c), "times": sum(1 for x in sim.calls if x.key() == c.key())},
               {"has_internal_shape": any(fd.get("out_shape") for fd in w["functions"] if fd["name"] == c.fn)})
             return
@@ -527,7 +528,7 @@ def _run_learners(case, w, ref, folder, process, V, probes, tape):
         return
     for c in sim2.calls:
         seen[c.key()] += 1
-        if seen[c.key()] > 1:
+        if seen[c.key()] > max(1, ref.C0.get(c.key(), 0)):
             V("learners", "element-computed-twice", {"call": repr(c), "where": "final"})
             return
     if R != ref.R0:
